@@ -163,3 +163,140 @@ class Ghost(object):
     def ghost(self):
         return {"conns": [g.state() for c, g in sorted(self.conns.items()) if g.alive],
                 "logs": sorted([list(k), v] for k, v in self.logs.items() if v)}
+
+
+class LifeGhost(Ghost):
+    """Ghost record of nameplate claims and mailbox open/close, from events and frames only.
+    Incarnations end when the row disappears from the snapshots (observed, not predicted)."""
+
+    def __init__(self, worlds):
+        Ghost.__init__(self, worlds)
+        self.np = {}     # (app, name) -> {"mid", "holders", "attempted", "released"}
+        self.mb = {}     # (app, mid)  -> {"sides": {side: "open"|"closed"}, "order": [side,...]}
+        self.np_inc = {}
+        self.ended_np = []   # nameplate incarnations that ended in the last step [(key, record)]
+        self.ended_mb = []
+
+    def _np(self, key):
+        if key not in self.np:
+            self.np[key] = {"mid": None, "holders": set(), "attempted": set(), "released": set()}
+        return self.np[key]
+
+    def _mb(self, key):
+        if key not in self.mb:
+            self.mb[key] = {"sides": {}, "order": []}
+        return self.mb[key]
+
+    def _arrive(self, key, side):
+        m = self._mb(key)
+        if side not in m["sides"]:
+            m["sides"][side] = "open"
+            m["order"].append(side)
+        return m
+
+    def close_target(self, g, msg):
+        return msg.get("mailbox") if msg.get("mailbox") is not None else g.open_mid
+
+    def release_target(self, g, msg):
+        return msg.get("nameplate") if msg.get("nameplate") is not None else g.claim_name
+
+    def update(self, r):
+        self.ended_np = []
+        self.ended_mb = []
+        pre = None
+        if r.kind == "cmd":
+            c = r.ev[1]
+            g = self.conns[c]
+            pre = (g.app, g.side, g.claim_name, g.open_mid)
+        self._life_facts(r, pre)
+        Ghost.update(self, r)        # connection flags; ends mailbox incarnations whose row disappeared
+        if r.before is not None and r.after is not None:
+            b = set((x["app_id"], x["name"]) for x in r.before["nameplates"])
+            a = set((x["app_id"], x["name"]) for x in r.after["nameplates"])
+            for key in b - a:
+                self.np_inc[key] = self.np_inc.get(key, 0) + 1
+                if key in self.np:
+                    self.ended_np.append((key, self.np.pop(key)))
+                else:
+                    self.ended_np.append((key, None))
+
+    def _life_facts(self, r, pre):
+        if r.kind == "cmd" and r.exc is None and pre[0] is not None:
+            app, side, claim_name, open_mid = pre
+            c = r.ev[1]
+            fr = r.frames_of(c)
+            err = has_error(fr)
+            msg = r.extra.get("msg") or {}
+            t = msg.get("type")
+            if t == "claim":
+                key = (app, msg.get("nameplate"))
+                n = self._np(key)
+                n["attempted"].add(side)
+                if not err:
+                    cl = [f for f in fr if f.get("type") == "claimed"]
+                    if cl:
+                        n["mid"] = cl[0].get("mailbox")
+                        n["holders"].add(side)
+                        self._arrive((app, n["mid"]), side)
+                elif err[0].get("error") == "crowded" and r.after is not None:
+                    mid = self._mid_from_rows(r.after, key)
+                    if mid is not None:
+                        n["mid"] = n["mid"] or mid
+                        self._arrive((app, mid), side)
+            elif t == "allocate" and not err:
+                al = [f for f in fr if f.get("type") == "allocated"]
+                if al:
+                    key = (app, al[0].get("nameplate"))
+                    n = self._np(key)
+                    n["attempted"].add(side)
+                    n["holders"].add(side)
+                    if r.after is not None:
+                        mid = self._mid_from_rows(r.after, key)
+                        if mid is not None:
+                            n["mid"] = mid
+                            self._arrive((app, mid), side)
+            elif t == "release" and not err:
+                name = msg.get("nameplate") if msg.get("nameplate") is not None else claim_name
+                key = (app, name)
+                if key in self.np:
+                    n = self.np[key]
+                    if side in n["attempted"]:
+                        n["released"].add(side)
+                    n["holders"].discard(side)
+            elif t == "open":
+                key = (app, msg.get("mailbox"))
+                if not err or err[0].get("error") == "crowded":
+                    self._arrive(key, side)
+            elif t == "close":
+                mid = msg.get("mailbox") if msg.get("mailbox") is not None else open_mid
+                key = (app, mid)
+                if not err:
+                    m = self._arrive(key, side)
+                    m["sides"][side] = "closed"
+                elif err[0].get("error") == "crowded":
+                    self._arrive(key, side)
+
+    def _mid_from_rows(self, rows, key):
+        for x in rows["nameplates"]:
+            if (x["app_id"], x["name"]) == key:
+                return x["mailbox_id"]
+        return None
+
+    def end_incarnation(self, key):
+        Ghost.end_incarnation(self, key)
+        if key in self.mb:
+            self.ended_mb.append((key, self.mb.pop(key)))
+        else:
+            self.ended_mb.append((key, None))
+
+    def open_sides(self, key):
+        m = self.mb.get(key)
+        return sorted(s for s, v in m["sides"].items() if v == "open") if m else []
+
+    def ghost(self):
+        g = Ghost.ghost(self)
+        g["np"] = sorted([list(k), v["mid"], sorted(v["holders"]), sorted(v["attempted"]), sorted(v["released"])]
+                         for k, v in self.np.items())
+        g["mb"] = sorted([list(k), sorted(v["sides"].items()), v["order"]] for k, v in self.mb.items())
+        g["np_inc"] = sorted([list(k), v] for k, v in self.np_inc.items())
+        return g
